@@ -39,6 +39,11 @@ inductive Op where
   | reject (h : String) (n : Nat) (e : FsErr)
   deriving Repr
 
+/-- the handler an op is addressed to (`tick` addresses the clock) -/
+def Op.handler : Op → Option String
+  | .put h _ | .sm h _ | .get h | .cancel h _ | .reset h | .setHandler h _ _ | .reject h _ _ => some h
+  | .tick _ => none
+
 inductive Ret where
   | none | bool (b : Bool) | pdu (p : Option Pdu) | now (n : Nat)
   deriving Repr
